@@ -60,7 +60,11 @@ func permServices(ctx context.Context, cf *commonFlags, rng *PRNG, idx map[strin
 						{Kind: KPropose, Client: client, IP: "10.0.0.1", Addrs: []Addr{ad}, Props: []PropData{{Dom: mkDomain(domProposer, 0), Slot: epoch, Pidx: 1, Parent: fill32(0), State: fill32(1), Body: fill32(1)}}},
 						{Kind: KSign, Client: client, IP: "10.0.0.1", Addrs: []Addr{ad}, Signs: []SignData{{Dom: mkDomain(domRandao, 0), Data: fill32(5)}}},
 					}
-					actions := []string{"Sign beacon attestation", "Sign beacon proposal", "Sign"}
+					// the batch endpoints too (one entry each: the permission asked for must be the endpoint's own)
+					ops = append(ops,
+						&Op{Kind: KAttests, Client: client, IP: "10.0.0.1", Addrs: []Addr{ad}, Atts: []AttData{{Dom: mkDomain(domAttester, 0), BBR: fill32(2), Src: &Checkpoint{epoch, fill32(0)}, Tgt: &Checkpoint{epoch + 1, fill32(2)}}}},
+						&Op{Kind: KMultisign, Client: client, IP: "10.0.0.1", Addrs: []Addr{ad}, Signs: []SignData{{Dom: mkDomain(domRandao, 1), Data: fill32(6)}}})
+					actions := []string{"Sign beacon attestation", "Sign beacon proposal", "Sign", "Sign beacon attestation", "Sign"}
 					for oi, op := range ops {
 						rec, err := run.execStep(inst, ci, oi, op)
 						if err != nil {
